@@ -85,12 +85,22 @@ def stepLines (t : Nat) (buf : Bytes) (s e : Nat) : List Span :=
 /-- `lines::count`: number of terminator bytes. -/
 def count (bytes : Bytes) (t : Nat) : Nat := bytes.count t
 
-/-- `lines::without_terminator`: strips the *full* terminator (`\r\n` under CRLF) if the line ends
-with it; a bare `\n` under CRLF is kept (finding F3). -/
+/-- `bytes.strip_suffix(&[b])` for a one-byte suffix. -/
+def stripSuffix1 (bytes : Bytes) (b : Nat) : Option Bytes :=
+  if bytes.getLast? == some b then some bytes.dropLast else none
+
+/-- `lines::without_terminator`. Under CRLF: strip a trailing `\n`, then a `\r` before it if there is one
+(a bare `\n` ends a line in CRLF mode too; repaired in cc9628f, finding F3). Otherwise strip the
+one-byte terminator if the line ends with it. -/
 def withoutTerminator (bytes : Bytes) (lt : LineTerm) : Bytes :=
-  let lineTerm := lt.asBytes
-  let start := bytes.length - lineTerm.length
-  if bytes.drop start == lineTerm then bytes.take (bytes.length - lineTerm.length) else bytes
+  if lt == .crlf then
+    match stripSuffix1 bytes 10 with
+    | none => bytes
+    | some line => (stripSuffix1 line 13).getD line
+  else
+    let lineTerm := lt.asBytes
+    let start := bytes.length - lineTerm.length
+    if bytes.drop start == lineTerm then bytes.take (bytes.length - lineTerm.length) else bytes
 
 /-- `lines::locate`: start and end of the lines containing `range`. -/
 def locate (bytes : Bytes) (t : Nat) (range : Span) : Span :=
